@@ -2,6 +2,7 @@ pub mod calendar;
 pub mod common;
 pub mod engine;
 pub mod vocab;
+pub mod c01;
 pub mod c02;
 
 use engine::{Ctx, Tier, Verdict, Worker};
@@ -10,6 +11,7 @@ pub const PROPS: [&str; 19] = ["C01", "C02", "C03", "C04", "C05", "C06", "C07", 
 
 pub fn run_property(id: &str, ctx: &Ctx) -> bool {
     match id {
+        "C01" => c01::run(ctx),
         "C02" => c02::run(ctx),
         _ => return false,
     }
@@ -18,6 +20,7 @@ pub fn run_property(id: &str, ctx: &Ctx) -> bool {
 
 pub fn replay_property(id: &str, w: &mut Worker, sub: &str, case: &serde_json::Value) -> Option<Verdict> {
     match id {
+        "C01" => c01::replay(w, sub, case),
         "C02" => c02::replay(w, sub, case),
         _ => None,
     }
